@@ -12,7 +12,7 @@ use serde_json::json;
 
 pub const KINDS: [Kind; 7] = [Kind::Sma, Kind::Wma, Kind::Sd, Kind::Mad, Kind::Min, Kind::Max, Kind::Bb];
 pub const A5: [f64; 5] = [-2.0, 0.0, 1.0, 1.0 + f64::EPSILON, 3.5];
-pub const MULTS: [f64; 7] = [0.0, 0.5, 1.0, 2.0, 2.5, 10.0, -1.5];
+pub const MULTS: [f64; 9] = [0.0, 0.5, 1.0, 2.0, 2.5, 10.0, -1.5, 2.1, 0.1];
 
 pub const RULE: &str = "ENUM: every sequence of length 1..=d over A5={-2,0,1,1+2^-52,3.5} for periods 1..=5 and each of SMA/WMA/SD/MAD/MIN/MAX/BB, replayed from a fresh instance, last output judged (so every prefix is judged once); RAND/REGIME: seeded streams, every step judged. A case (indicator, period, sequence/stream) is non-trivial when the stream is longer than the period (the ring buffer wrapped) and holds >= 2 distinct values; ENUM cases are distinct by construction, random ones by hash of (indicator, params, stream).";
 
